@@ -430,8 +430,9 @@ def predicate_table(sc, fields, enums):
     return names, out
 
 
-def eval_return(sc, atom_value, maxsteps=120):
-    """walk a body under an atom assignment and return the (rewritten) node last assigned to the return place"""
+def eval_return(sc, atom_value, maxsteps=120, try_atoms=False):
+    """walk a body under an atom assignment and return the (rewritten) node last assigned to the return place.  A `?` takes its Continue edge unless
+    try_atoms is set and atom_value decides the discriminant of the Try::branch result itself ("0" Continue, "1" Break)"""
     body = sc.body
     b = 0
     result = None
@@ -449,7 +450,7 @@ def eval_return(sc, atom_value, maxsteps=120):
         if k == "switch":
             n = strip(sc.operand(t["d"]))
             if n[0] == "discr" and strip(n[1])[0] == "call" and short_callee(strip(n[1])[1]) == "branch":
-                v = "0"
+                v = (atom_value(n) if try_atoms else None) or "0"
             else:
                 v = atom_value(n)
             if v is None:
